@@ -16,6 +16,8 @@ from fractions import Fraction as F
 import numpy as _np
 import z3
 
+from . import xcheck
+
 INF = float("inf")
 MOD_MODE = os.environ.get("SYMX_MOD", "disj")   # "fork": one path per wrap count; "disj": solver-side case split
 MOD_WINDOW = 4
@@ -289,6 +291,7 @@ class Ctx:
         """satisfiability of pc ∧ extra: linear abstraction (unsat only), incremental solver, then a fresh
         non-incremental solver (z3 picks nlsat for QF_NRA there); leaves a model in self.model when sat"""
         if self._check(self.lsolver, extra) == "unsat":
+            xcheck.offer([e.expr for e in self.pc], extra, "branch-linear")
             return "unsat"
         if self.nonlinear:
             s = z3.Solver()
@@ -298,11 +301,15 @@ class Ctx:
             r = self._check(s)
             if r == "sat":
                 self.model = s.model()
+            if r == "unsat":
+                xcheck.offer([e.expr for e in self.pc], extra, "branch")
             if r != "unknown":
                 return r
         r = self._check(self.solver, extra)
         if r == "sat":
             self.model = self.solver.model()
+        elif r == "unsat":
+            xcheck.offer([e.expr for e in self.pc], extra, "branch")
         return r
 
     def fresh(self, name, sort="real"):
@@ -441,8 +448,10 @@ class Ctx:
             return self._check(s0)
 
         if sliced and lin(sl) == "unsat":
+            xcheck.offer(sl, neg, "linear-slice")
             return "unsat", None, "linear-slice"
         if lin(full) == "unsat":
+            xcheck.offer(full, neg, "linear")
             return "unsat", None, "linear"
         if sliced:
             s = z3.Solver()
@@ -450,6 +459,7 @@ class Ctx:
             s.add(*sl)
             s.add(neg)
             if self._check(s) == "unsat":
+                xcheck.offer(sl, neg, "slice")
                 return "unsat", None, "slice"
         s = z3.Solver()
         s.set("timeout", timeout_ms)
@@ -464,9 +474,13 @@ class Ctx:
                 s2.add(neg)
                 r2 = self._check(s2)
                 if r2 != "unknown":
+                    if r2 == "unsat":
+                        xcheck.offer(full, neg, "nlsat")
                     return r2, (s2.model() if r2 == "sat" else None), "nlsat"
             except z3.Z3Exception:
                 pass
+        if r == "unsat":
+            xcheck.offer(full, neg, "full")
         return r, (s.model() if r == "sat" else None), "full"
 
 
